@@ -340,31 +340,41 @@ func (nt *Net) noteBlockVotes(i int, b *types.Block) {
 }
 
 // drainVotes forwards the votes node i posted (own and relayed) to its peers.
+// A node posts from two goroutines (block processor and cached-vote loop), so the
+// order in the subscription channel is the Go scheduler's: everything posted up to
+// quiescence is collected and forwarded in a canonical order.
 func (nt *Net) drainVotes(i int) {
 	n := nt.Nodes[i]
-	for {
+	var got []casper.ValidCasperSignMsg
+	for more := true; more; {
 		select {
 		case ev := <-nt.subs[i].Chan():
 			if ev == nil {
-				return
+				more = false
+				break
 			}
-			m, ok := ev.Data.(casper.ValidCasperSignMsg)
-			if !ok {
-				continue
+			if m, ok := ev.Data.(casper.ValidCasperSignMsg); ok {
+				got = append(got, m)
 			}
-			mm := m
-			if m.PubKey == n.Key.PubHex {
-				v := vote{m.PubKey, m.SourceHash, m.TargetHash}
-				if verifyVoteSig(m.PubKey, m.SourceHash, m.TargetHash, m.Signature) {
-					nt.ownVotes[i][v] = true
-				}
-				nt.W.R.Count("votes.signed_by_honest", 1)
-			}
-			nt.noteVote(i, m.PubKey, m.SourceHash, m.TargetHash, m.Signature)
-			nt.broadcastVote(i, &mm)
 		default:
-			return
+			more = false
 		}
+	}
+	key := func(m *casper.ValidCasperSignMsg) string {
+		return m.PubKey + "|" + m.TargetHash.String() + "|" + m.SourceHash.String() + "|" + string(m.Signature)
+	}
+	sort.SliceStable(got, func(a, b int) bool { return key(&got[a]) < key(&got[b]) })
+	for _, m := range got {
+		mm := m
+		if m.PubKey == n.Key.PubHex {
+			v := vote{m.PubKey, m.SourceHash, m.TargetHash}
+			if verifyVoteSig(m.PubKey, m.SourceHash, m.TargetHash, m.Signature) {
+				nt.ownVotes[i][v] = true
+			}
+			nt.W.R.Count("votes.signed_by_honest", 1)
+		}
+		nt.noteVote(i, m.PubKey, m.SourceHash, m.TargetHash, m.Signature)
+		nt.broadcastVote(i, &mm)
 	}
 }
 
@@ -387,6 +397,15 @@ func (nt *Net) startNode(i int, disk *simdisk.Disk) error {
 func (nt *Net) deliver(m *netMsg) {
 	w, r := nt.W, nt.W.R
 	nt.dirty[m.to] = true
+	if debugJC {
+		kind := "fetch"
+		if m.block != nil {
+			kind = "block " + w.name(m.block.Hash())
+		} else if m.vmsg != nil {
+			kind = "vote " + w.name(m.vmsg.SourceHash) + ">" + w.name(m.vmsg.TargetHash) + " by " + m.vmsg.PubKey[:6]
+		}
+		fmt.Fprintf(os.Stderr, "DLV at=%d seq=%d from=%d to=%d %s\n", m.at, m.seq, m.from, m.to, kind)
+	}
 	n := nt.Nodes[m.to]
 	n.Activate()
 	switch {
@@ -588,6 +607,8 @@ func (nt *Net) witness(votes map[vote]bool, t *model.BlockState, memo map[bc.Has
 	return false, nil
 }
 
+var debugJC = os.Getenv("VERIF_DEBUG_JC") != ""
+
 // checkJustification evaluates the C17 witness oracle on node i.
 func (nt *Net) checkJustification(ctx string) {
 	w, r := nt.W, nt.W.R
@@ -619,6 +640,9 @@ func (nt *Net) checkJustification(ctx string) {
 				return
 			}
 			r.Count("probe.justified_checked", 1)
+			if debugJC {
+				fmt.Fprintf(os.Stderr, "JC %s node%d %s status=%d\n", ctx, i, w.name(h), cp.Status)
+			}
 			if cp.Status == state.Finalized && s.Height > 0 {
 				// a direct child checkpoint must be justified from it
 				found := false
